@@ -64,6 +64,33 @@ def read_real(text, path):
         return None
 
 
+def dict_real(text, path):
+    """csv.DictReader as the tools call it; canonical text of the records (field order = header order)"""
+    m = compat()
+    with open(path, "w", newline="", encoding="utf-8") as f:
+        f.write(text)
+    try:
+        with m._open_csv(path, "r") as f:
+            rd = csv.DictReader(f, lineterminator="\n", delimiter="|", quotechar='"')
+            recs = list(rd)
+            names = rd.fieldnames or []
+    except csv.Error:
+        return "error"
+    if not recs:
+        return "~"
+    out = []
+    for r in recs:
+        # a header with repeated names keeps the LAST value of a repeated key in the dict; the model keeps every pair: compare per position
+        vals = []
+        extra = r.get(None, [])
+        raw = None
+        for i, k in enumerate(names):
+            vals.append((k, r.get(k)))
+        out.append((vals, extra))
+    return ";".join(",".join("%s=%s" % (cps(k), "None" if v is None else cps(v)) for k, v in vals) +
+                    ("+" + ",".join(cps(x) for x in extra) if extra else "") for vals, extra in out)
+
+
 def cases(rng, n, workdir, oc):
     """returns (requests, implementation replies, round-trip failures of the real code)"""
     os.makedirs(workdir, exist_ok=True)
@@ -90,6 +117,11 @@ def cases(rng, n, workdir, oc):
             lines.append("csvr %s" % cps(t))
             impl.append("error" if r is None else show_rows(r))
             oc.count("csv: reader texts")
+            # DictReader on the same text, when the first row has pairwise different names (a repeated name keeps only its last value)
+            if r and r[0] and len(set(r[0])) == len(r[0]):
+                lines.append("csvd %s" % cps(t))
+                impl.append(dict_real(t, p))
+                oc.count("csv: DictReader texts")
     return lines, impl, bad
 
 
